@@ -15,24 +15,41 @@ Driver ops of C20.
 namespace Drv.C20
 open Program
 
-/-- data of a cell: a container is a dict cell (no data) holding a reference to a list cell whose data
-    are the integers the Python stubs see under the key "h" -/
+/-- data of a cell.  Conventions shared with the Python stubs (harness/props/c20.py):
+    a `dict` is a cell with data `[-9]` whose references are its values in insertion order (the list
+    under the key "h" first); a list of integers is a cell holding them; a list of objects is a cell
+    `[-8]` with its elements as references; a numpy integer array is a cell `-7 :: values` -/
 abbrev D := List Int
 abbrev V := View D
 
-/-- one scripted call: in-place mutations of the handed containers (append a token to the list
-    below the dict, creating it if absent), then what is returned: the `j`-th handed container or a
-    new container with the given content -/
+def dictD : D := [-9]
+
+/-- how deep the recorded observations unfold the object graph below a container -/
+def DEPTH : Nat := 5
+
+/-- one scripted call.  `late`: in-place mutations of objects the stubs were handed (or returned) in
+    EARLIER calls (index into the list of everything seen so far, path of child indices below it);
+    `muts`: in-place mutation of the handed containers (append a token to the list under "h", creating
+    it if absent); `deep`: mutations below a handed container (argument index, path); then what is
+    returned: the `j`-th handed container or a new container with the given content -/
 inductive Sel | arg (j : Nat) | new (c : D)
 
 structure Action where
   kind : String                 -- "op:pselect", "log:mate", "init", …: which call consumes it
   muts : List (Option Int)
   rets : List Sel
+  deep : List (Nat × List Nat × Int)
+  late : List (Nat × List Nat × Int)
 
 abbrev Script := List Action
 
-/-- `o.setdefault("h", []).append(x)` -/
+/-- internal state of the scripted operators: the remaining script and every reference they were
+    ever handed or returned (operators may keep what they are given) -/
+structure OSt where
+  script : Script
+  seen : List Ref
+
+/-- `o.setdefault("h", []).append(x)` on a dict cell -/
 def appendTo (h : Heap (Cell D)) (a : Ref) (x : Int) : Heap (Cell D) :=
   match h[a]? with
   | none => h
@@ -44,16 +61,63 @@ def appendTo (h : Heap (Cell D)) (a : Ref) (x : Int) : Heap (Cell D) :=
       | none => h
     | [] => (h ++ [({ data := [x], refs := [] } : Cell D)]).set a { c with refs := [h.length] }
 
+/-- in-place mutation of one object with token `x`, by kind: dict — append to its "h" list; list of
+    integers — append; array — overwrite the last element; list of objects — nothing -/
+def mutCell (h : Heap (Cell D)) (a : Ref) (x : Int) : Heap (Cell D) :=
+  match h[a]? with
+  | none => h
+  | some c =>
+    if c.data == dictD then appendTo h a x
+    else if c.data.head? == some (-8) then h
+    else if c.data.head? == some (-7) then
+      (if c.data.length ≥ 2 then h.set a { c with data := c.data.dropLast ++ [x] } else h)
+    else h.set a { c with data := c.data ++ [x] }
+
+/-- follow child indices below a cell -/
+def walk (h : Heap (Cell D)) : Ref → List Nat → Option Ref
+  | a, [] => if a < h.length then some a else none
+  | a, i :: p =>
+    match h[a]? with
+    | none => none
+    | some c =>
+      match c.refs[i]? with
+      | none => none
+      | some r => walk h r p
+
+def mutAt (h : Heap (Cell D)) (a : Ref) (path : List Nat) (x : Int) : Heap (Cell D) :=
+  match walk h a path with
+  | some t => mutCell h t x
+  | none => h
+
 def applyMuts (h : Heap (Cell D)) (args : List Ref) (muts : List (Option Int)) : Heap (Cell D) :=
   (List.zip args muts).foldl (fun h p => match p.2 with
-    | some x => appendTo h p.1 x
+    | some x => mutCell h p.1 x
     | none => h) h
+
+/-- mutations addressed by (index into `roots`, path, token); an index out of range does nothing -/
+def applyDeep (h : Heap (Cell D)) (roots : List Ref) (ms : List (Nat × List Nat × Int)) : Heap (Cell D) :=
+  ms.foldl (fun h m => match roots[m.1]? with
+    | some a => mutAt h a m.2.1 m.2.2
+    | none => h) h
+
+/-- a new container `{"h": c}`: a dict cell and the list cell below it -/
+def newCells (h : Heap (Cell D)) (c : D) : Heap (Cell D) :=
+  h ++ [({ data := dictD, refs := [h.length + 1] } : Cell D), { data := c, refs := [] }]
+
+/-- the `j`-th handed object, the first one if there are fewer (as the Python stubs do) -/
+def pickArg (args : List Ref) (j : Nat) : Option Ref :=
+  match args[j]? with
+  | some a => some a
+  | none => args.head?
 
 def applyRets (h : Heap (Cell D)) (args : List Ref) : List Sel → Heap (Cell D) × List Ref
   | [] => (h, [])
-  | .arg j :: rest => let r := applyRets h args rest; (r.1, args.getD j 0 :: r.2)
+  | .arg j :: rest =>
+    match pickArg args j with
+    | some a => let r := applyRets h args rest; (r.1, a :: r.2)
+    | none => let r := applyRets (newCells h []) args rest; (r.1, h.length :: r.2)   -- nothing was handed
   | .new c :: rest =>
-    let r := applyRets (h ++ [({ data := [], refs := [h.length + 1] } : Cell D), { data := c, refs := [] }]) args rest
+    let r := applyRets (newCells h c) args rest
     (r.1, h.length :: r.2)
 
 def defaultRets (k : OpK) : List Sel :=
@@ -75,19 +139,33 @@ def logKindStr : LogK → String
   | .initialize => "log:initialize" | .pselect => "log:pselect" | .mate => "log:mate"
   | .evaluate => "log:evaluate" | .sselect => "log:sselect"
 
-def scripted : Ops Script D where
+def nLog : LogK → Nat
+  | .pselect => 6 | .mate => 6 | _ => 5
+
+/-- an operator returns as many values as its signature says (scripts written by the generator
+    always do; any other script falls back to the default) -/
+def normRets (k : OpK) (rets : List Sel) : List Sel :=
+  if rets.length = arity k then rets else defaultRets k
+
+def scripted : Ops OSt D where
   op := fun k σ h args _ _ =>
-    match takeAction (opKindStr k) σ with
-    | (none, σ') => let r := applyRets h args (defaultRets k); (σ', r.1, r.2)
-    | (some a, σ') => let r := applyRets (applyMuts h args a.muts) args a.rets; (σ', r.1, r.2)
+    match takeAction (opKindStr k) σ.script with
+    | (none, sc') => let r := applyRets h args (defaultRets k); (⟨sc', σ.seen ++ args ++ r.2⟩, r.1, r.2)
+    | (some a, sc') =>
+      let h1 := applyDeep h σ.seen a.late
+      let h2 := applyDeep (applyMuts h1 args a.muts) args a.deep
+      let r := applyRets h2 args (normRets k a.rets)
+      (⟨sc', σ.seen ++ args ++ r.2⟩, r.1, r.2)
   log := fun k σ h args _ _ _ =>
-    match takeAction (logKindStr k) σ with
-    | (none, σ') => (σ', h)
-    | (some a, σ') => (σ', applyMuts h args a.muts)
+    match takeAction (logKindStr k) σ.script with
+    | (none, sc') => (⟨sc', σ.seen ++ args.take (nLog k)⟩, h)
+    | (some a, sc') =>
+      let h1 := applyDeep h σ.seen a.late
+      (⟨sc', σ.seen ++ args.take (nLog k)⟩, applyDeep (applyMuts h1 args a.muts) args a.deep)
   init := fun σ h =>
-    match takeAction "init" σ with
-    | (none, σ') => let r := applyRets h [] [.new [], .new [], .new [], .new [], .new []]; (σ', r.1, r.2)
-    | (some a, σ') => let r := applyRets h [] a.rets; (σ', r.1, r.2)
+    match takeAction "init" σ.script with
+    | (none, sc') => let r := applyRets h [] [.new [], .new [], .new [], .new [], .new []]; (⟨sc', σ.seen⟩, r.1, r.2)
+    | (some a, sc') => let r := applyRets h [] a.rets; (⟨sc', σ.seen⟩, r.1, r.2)
 
 /-! JSON -/
 
@@ -101,11 +179,19 @@ def decSel (j : Json) : J.R Sel := do
     | s => J.fail s!"bad selector {s}"
   | _ => J.fail "bad selector"
 
+def decDeep (j : Json) : J.R (Nat × List Nat × Int) := do
+  let l ← J.list pure j
+  match l with
+  | [i, p, x] => pure (← J.nat i, ← J.list J.nat p, ← J.int x)
+  | _ => J.fail "bad deep mutation"
+
 def decAction (j : Json) : J.R Action := do
   let kind ← J.field j "k" J.str
   let muts ← J.fieldD j "muts" (J.list (J.opt J.int)) []
   let rets ← J.fieldD j "rets" (J.list decSel) []
-  pure ⟨kind, muts, rets⟩
+  let deep ← J.fieldD j "deep" (J.list decDeep) []
+  let late ← J.fieldD j "late" (J.list decDeep) []
+  pure ⟨kind, muts, rets, deep, late⟩
 
 def kindStr : EvKind → String
   | .init => "init"
@@ -123,80 +209,121 @@ def decKind (s : String) : J.R EvKind :=
   | some k => pure k
   | none => J.fail s!"unknown event kind {s}"
 
-/-- what the Python stubs see of a container: the integers of the list below the dict -/
+/-- what the Python stubs see of a container: the unfolding of the object graph below it to depth
+    `DEPTH`, as the pre-order list of `depth :: data` -/
 def encVal : Option V → Json :=
-  J.ofOpt (fun v => J.ofList J.ofInt ((v.filter (fun p => p.1 == 1)).flatMap (fun p => p.2)))
+  J.ofOpt (fun v => J.ofList (fun p => J.ofList J.ofInt (Int.ofNat p.1 :: p.2)) v)
 def decVal : Json → J.R (Option V) :=
-  J.opt (fun j => do let l ← J.list J.int j; pure [(0, []), (1, l)])
+  J.opt (fun j => do
+    let l ← J.list (J.list J.int) j
+    pure (l.map (fun x => ((x.headD 0).toNat, x.drop 1))))
 
-def encEvent (e : Event V) : Json :=
+/-- `startVals` of an event is sent as the string "=" when it equals that of the previous event
+    (for the first event: the value `prev` the caller names) — a lossless shortening of the protocol -/
+def encEvent (prev : Option (List (Option V))) (e : Event V) : Json :=
   J.obj [("kind", J.ofStr (kindStr e.kind)), ("t", J.ofNat e.t), ("tmax", J.ofNat e.tmax),
          ("rep", J.ofInt e.rep), ("args", J.ofList J.ofNat e.args),
          ("argVals", J.ofList encVal e.argVals), ("rets", J.ofList J.ofNat e.rets),
-         ("retVals", J.ofList encVal e.retVals), ("startVals", J.ofList encVal e.startVals)]
+         ("retVals", J.ofList encVal e.retVals),
+         ("startVals", if prev == some e.startVals then J.ofStr "=" else J.ofList encVal e.startVals)]
 
-def decEvent (j : Json) : J.R (Event V) := do
+def encTrace : Option (List (Option V)) → List (Event V) → List Json
+  | _, [] => []
+  | prev, e :: rest => encEvent prev e :: encTrace (some e.startVals) rest
+
+def decEvent (prev : List (Option V)) (j : Json) : J.R (Event V) := do
   let kind ← decKind (← J.field j "kind" J.str)
+  let sv ← J.field j "startVals" (fun x => match x with
+    | Json.str "=" => pure prev
+    | x => J.list decVal x)
   pure { kind := kind, t := ← J.field j "t" J.nat, tmax := ← J.field j "tmax" J.nat,
          rep := ← J.field j "rep" J.int, args := ← J.field j "args" (J.list J.nat),
          argVals := ← J.field j "argVals" (J.list decVal), rets := ← J.field j "rets" (J.list J.nat),
          retVals := ← J.field j "retVals" (J.list decVal),
-         startVals := ← J.field j "startVals" (J.list decVal) }
+         startVals := sv }
 
-/-- one API call on the programme object -/
+def decTrace (prev : List (Option V)) : List Json → J.R (List (Event V))
+  | [] => pure []
+  | j :: rest => do
+    let e ← decEvent prev j
+    let es ← decTrace e.startVals rest
+    pure (e :: es)
+
+/-- one API call on the programme object (or an attribute assignment by its user).  `repIn`: the
+    replicate counter of the logbook handed to this call (a different logbook may be passed to each call) -/
 inductive CallJ
-  | evolve (nrep : Nat) (ngen : Option Nat) (loginit : Bool)
-  | reset
-  | advance (ngen : Option Nat)
+  | evolve (nrep : Nat) (ngen : Option Nat) (loginit : Bool) (repIn : Option Int)
+  | reset (repIn : Option Int)
+  | advance (ngen : Option Nat) (repIn : Option Int)
+  | setStart (slot : Nat) (content : Option D)      -- `prog.start_X = {"h": content}` / `= None`
+  | setTmax (n : Nat)                               -- `prog.t_max = n`
+  | setT (n : Nat)                                  -- `prog.t_cur = n`
 
 def decCall (j : Json) : J.R CallJ := do
   match ← J.field j "m" J.str with
-  | "evolve" => pure (.evolve (← J.field j "nrep" J.nat) (← J.fieldOpt j "ngen" J.nat) (← J.field j "loginit" J.bool))
-  | "reset" => pure .reset
-  | "advance" => pure (.advance (← J.fieldOpt j "ngen" J.nat))
+  | "evolve" => pure (.evolve (← J.field j "nrep" J.nat) (← J.fieldOpt j "ngen" J.nat) (← J.field j "loginit" J.bool)
+                        (← J.fieldOpt j "rep_in" J.int))
+  | "reset" => pure (.reset (← J.fieldOpt j "rep_in" J.int))
+  | "advance" => pure (.advance (← J.fieldOpt j "ngen" J.nat) (← J.fieldOpt j "rep_in" J.int))
+  | "set_start" => pure (.setStart (← J.field j "slot" J.nat) (← J.fieldOpt j "content" (J.list J.int)))
+  | "set_tmax" => pure (.setTmax (← J.field j "value" J.nat))
+  | "set_t" => pure (.setT (← J.field j "value" J.nat))
   | m => J.fail s!"unknown call {m}"
 
-def runCall (sc : Schedule) (tmax : Nat) (c : CallJ) (st : State Script D) : State Script D :=
+def withRep (st : State OSt D) : Option Int → State OSt D
+  | some r => { st with rep := r }
+  | none => st
+
+def runCall (sc : Schedule) (tmax : Nat) (c : CallJ) (st : State OSt D) : State OSt D :=
   match c with
-  | .evolve nrep ngen li => evolve scripted ⟨nrep, ngen, tmax, li, [], 1⟩ sc st
-  | .reset => resetCall scripted ⟨0, none, tmax, true, [], 1⟩ sc st
-  | .advance ngen => advanceCall scripted ⟨0, ngen, tmax, true, [], 1⟩ sc st
+  | .evolve nrep ngen li r => evolve scripted ⟨nrep, ngen, tmax, li, dictD, DEPTH⟩ sc (withRep st r)
+  | .reset r => resetCall scripted ⟨0, none, tmax, true, dictD, DEPTH⟩ sc (withRep st r)
+  | .advance ngen r => advanceCall scripted ⟨0, ngen, tmax, true, dictD, DEPTH⟩ sc (withRep st r)
+  | .setStart slot (some c) =>
+    -- a new container allocated by the caller; it becomes part of the initial state (everything
+    -- allocated so far now counts as existing at initialisation)
+    { st with heap := st.heap ++ [({ data := dictD, refs := [st.heap.length + 1] } : Cell D), { data := c, refs := [] }],
+              n0 := st.heap.length + 2, start := st.start.set slot (some st.heap.length) }
+  | .setStart slot none => { st with start := st.start.set slot none }
+  | .setTmax _ => st
+  | .setT n => { st with t := n }
 
 /-- run the successive API calls; one answer object per call (stops after a call that raises) -/
-def runAll (sc : Schedule) (tmax : Nat) : List CallJ → State Script D → List Json
+def runAll (sc : Schedule) (tmax : Nat) : List CallJ → State OSt D → List Json
   | [], _ => []
   | c :: cs, st =>
     let st0 := { st with trace := [] }
     let st1 := runCall sc tmax c st0
+    let tmax' := match c with
+      | .setTmax n => n
+      | _ => tmax
     let work := five.map st1.regs
-    J.obj [("trace", J.ofList encEvent st1.trace), ("bad", J.ofBool st1.bad),
+    J.obj [("trace", Json.arr (encTrace none st1.trace).toArray), ("bad", J.ofBool st1.bad),
            ("start_before", J.ofList (J.ofOpt J.ofNat) st.start),
            ("start_after", J.ofList (J.ofOpt J.ofNat) st1.start),
-           ("startVals_after", J.ofList encVal (startVals 1 st1.heap st1.start)),
+           ("startVals_after", J.ofList encVal (startVals DEPTH st1.heap st1.start)),
            ("work", J.ofList (J.ofOpt J.ofNat) work),
-           ("workVals", J.ofList encVal (startVals 1 st1.heap work)),
-           ("rep", J.ofInt st1.rep), ("t", J.ofNat st1.t),
-           ("script_left", J.ofNat st1.ost.length)]
-      :: (if st1.bad then [] else runAll sc tmax cs st1)
+           ("workVals", J.ofList encVal (startVals DEPTH st1.heap work)),
+           ("rep", J.ofInt st1.rep), ("t", J.ofNat st1.t), ("tmax", J.ofNat tmax'),
+           ("script_left", J.ofNat st1.ost.script.length)]
+      :: (if st1.bad then [] else runAll sc tmax' cs st1)
 
+def decCell (j : Json) : J.R (Cell D) := do
+  pure { data := ← J.field j "d" (J.list J.int), refs := ← J.field j "r" (J.list J.nat) }
+
+/-- `graph`: the object graph of the start containers, one cell per object (`d` data, `r` references
+    = indices of other cells); `start`: the cell of each of the five start containers or null -/
 def opRun : J.Op := fun j => do
-  let cells ← J.field j "cells" (J.list (J.list J.int))
+  let heap ← J.field j "graph" (J.list decCell)
   let start ← J.field j "start" (J.list (J.opt J.nat))
   let tmax ← J.field j "tmax" J.nat
   let rep0 ← J.field j "rep0" J.int
   let script ← J.field j "script" (J.list decAction)
   let calls ← J.field j "calls" (J.list decCall)
   let canon ← J.fieldD j "canonical" J.bool false
-  let share ← J.fieldD j "share" (J.list (J.list J.nat)) []
-  -- container i = dict cell 2i holding a reference to its list cell 2i+1, or (shared) to the list of j
-  let innerOf (i : Nat) : Nat := match share.find? (fun p => p.head? == some i) with
-    | some [_, k] => k
-    | _ => i
-  let heap : Heap (Cell D) := cells.zipIdx.flatMap (fun p =>
-    [({ data := [], refs := [2 * innerOf p.2 + 1] } : Cell D), { data := p.1, refs := [] }])
-  let st : State Script D :=
-    { heap := heap, n0 := heap.length, regs := fun _ => none, start := start.map (fun o => o.map (2 * ·)),
-      t := 0, rep := rep0, ngen := none, ost := script, trace := [], bad := false }
+  let st : State OSt D :=
+    { heap := heap, n0 := heap.length, regs := fun _ => none, start := start,
+      t := 0, rep := rep0, ngen := none, ost := ⟨script, []⟩, trace := [], bad := false }
   let sc := if canon then Program.canonical else C20Schedule.evolve
   pure <| J.obj [("calls", Json.arr (runAll sc tmax calls st).toArray)]
 
@@ -245,7 +372,7 @@ def opSpec : J.Op := fun j => do
   let ngen ← J.field j "ngen" J.nat
   let loginit ← J.field j "loginit" J.bool
   let v0 ← J.field j "V0given" (J.list decVal)
-  let trace ← J.field j "trace" (J.list decEvent)
+  let trace ← decTrace v0 (← J.field j "trace" (J.list pure))
   let after ← J.field j "startVals_after" (J.list decVal)
   let spec := specTrace sameOrEqual nrep ngen loginit v0 trace
   let strict := specTrace sameRef nrep ngen loginit v0 trace
@@ -253,9 +380,15 @@ def opSpec : J.Op := fun j => do
     | e :: _ => if e.kind == EvKind.init then e.retVals else v0
     | [] => v0
   let afterOk := after == v0'
+  let rb ← J.fieldD j "rep_before" (J.opt J.int) none
+  let ra ← J.fieldD j "rep_after" (J.opt J.int) none
+  let total := match rb, ra with
+    | some b, some a => a == b + Int.ofNat nrep
+    | _, _ => true
+  let reps := repsOK loginit ngen nrep ((specBody loginit trace).map (fun e => e.rep)) && total
   let why := if spec then "" else " reason: " ++ explain nrep ngen loginit v0 trace
-  pure <| J.obj [("ok", J.ofBool (spec && afterOk)),
-                 ("detail", J.ofStr s!"specTrace={spec} identity_wiring={strict} start_after_unchanged={afterOk}{why}")]
+  pure <| J.obj [("ok", J.ofBool (spec && reps && afterOk)),
+                 ("detail", J.ofStr s!"specTrace={spec} replicate_counter={reps} identity_wiring={strict} start_after_unchanged={afterOk}{why}")]
 
 def decItems (j : Json) : J.R (List (Item V)) := do
   let ids ← J.field j "cur" (J.list J.nat)
@@ -268,7 +401,7 @@ def opSpecAdvance : J.Op := fun j => do
   let t0 ← J.field j "t0" J.nat
   let v0 ← J.field j "V0" (J.list decVal)
   let cur ← decItems j
-  let trace ← J.field j "trace" (J.list decEvent)
+  let trace ← decTrace v0 (← J.field j "trace" (J.list pure))
   let after ← J.field j "startVals_after" (J.list decVal)
   let spec := specAdvance sameOrEqual ngen t0 v0 cur trace
   let strict := specAdvance sameRef ngen t0 v0 cur trace
